@@ -353,6 +353,21 @@ impl<'a> World<'a> {
                 drive(rt, 1);
             }
             drive(rt, 0);
+            // polling driver: the pool thread closes first and reports afterwards; the completion
+            // (which wakes the close() future, if it still exists) is part of the same step
+            let waiting = |w: &World| {
+                w.closers.iter().enumerate().any(|(i, c)| {
+                    c.is_close
+                        && c.polled
+                        && c.fut.is_some()
+                        && w.others(i) == 0
+                        && !(0..c.wakers.len()).any(|g| c.woken(g))
+                })
+            };
+            let t1 = Instant::now();
+            while !self.id.open() && waiting(self) && t1.elapsed() < Duration::from_millis(1000) {
+                drive(rt, 1);
+            }
         }
     }
 
